@@ -1,2 +1,16 @@
-(* C08 -- placeholder while the proofs are being built *)
-From Verif Require Import Base.GoInt Thrift.Model.
+(* C08 -- thrift decoding is total, classifies truncation, reports trailing bytes.
+   Model: Thrift/Model.v; the struct decoder's bitset index check is a [TPanic] branch of the model. *)
+From Verif Require Import Base.GoInt Thrift.Model Thrift.Spec Thrift.ProofsA Thrift.ProofsB.
+
+(* EVERY byte string, either protocol, any supported target: a value or an error -- never a panic (bitset indices,
+   negative sizes), within fuel linear in the input (collection loops are bounded by the bytes available) *)
+Theorem t_decode_total : t_decode_total_statement.
+Proof. exact ProofsA.t_decode_total. Qed.
+
+(* input truncated at ANY offset of a valid encoding: io.EOF for the empty input, unexpected-EOF class otherwise *)
+Theorem t_prefix_eof : t_prefix_eof_statement.
+Proof. exact ProofsB.t_prefix_eof. Qed.
+
+(* Unmarshal reports trailing bytes *)
+Theorem t_trailing : t_trailing_statement.
+Proof. exact ProofsB.t_trailing. Qed.
